@@ -246,7 +246,7 @@ def canon_fs_event(hdr):
 
 
 def delete_programs(p, impl):
-    """-> (number compared, list of mismatch texts): observed FS steps of each Delete vs delete_prog of CrashDir.v"""
+    """-> (number compared, list of mismatch texts): observed FS steps of each Delete / Publish vs delete_prog / publish_prog of CrashDir.v"""
     model, case = {}, None
     for line in open(p + '.delprog'):
         line = line.rstrip('\n')
@@ -398,8 +398,9 @@ def crash_extra(pid, tier, seed, powerloss):
             viol.append(('corr', '# correspondence corr:%s/recovery no longer checks: the model recovers image %s differently\n# %s\n'
                                  '# op: %s\n# implementation: %s\n# model: %s\n' % (pid, name, hdr, op[:300], res, mres)))
         if not viol and progbad:
-            viol.append(('corr', '# correspondence corr:%s/delete-programs no longer checks: the file-system steps of a Delete differ from the '
-                                 'program of coq/CrashDir.v (theorems C05_override_crash_safe / C05_drop_crash_safe / C05_rebase_overlap)\n# %s\n'
+            viol.append(('corr', '# correspondence corr:%s/delete-programs no longer checks: the file-system steps of a Delete or Publish differ from the '
+                                 'program of coq/CrashDir.v (delete_prog / publish_prog; theorems C05_override_crash_safe / C05_drop_crash_safe / '
+                                 'C05_rebase_overlap / C05_create_head_crash_safe / C05_head_all_crash_safe / C05_head_tail_override_crash_safe)\n# %s\n'
                                  % (pid, '\n# '.join(progbad[:5]))))
         cov = dict(crash=dict(workloads=len(wl), images=nimg, torn_images=ntorn, recoveries_compared_with_model=nimg - len(viol),
                               delete_programs_compared_with_CrashDir=nprog, delete_program_mismatches=len(progbad),
